@@ -17,6 +17,7 @@ import RLV.Model.Macro
 import RLV.Model.Parser
 import RLV.Model.Sel
 import RLV.Model.Term
+import RLV.Model.TermRun
 import RLV.Model.Tok
 import RLV.Model.Uni
 import RLV.Model.Utf8
@@ -245,6 +246,27 @@ def step (line : String) : String :=
     let (s, ok) := MLoop.session C 400 ((parseList chunks ",").map parseNats) s0
     let evs := s.log.map fun (a, ks) => s!"{a}/{showNats ks}"
     " ".intercalate (evs ++ [if ok then s!"END/{s.eng.keys.buf.length + s.eng.keys.mkeys.length}" else "FUEL"])
+  | ["loopsess", em, regs, mtbl, chunks] =>
+    -- the main loop against a real Readline call: probe commands, macros, self-insert, accept-line
+    let parseTbl (t : String) : List (List Nat × Bind) := (parseList t ";").filterMap fun ent =>
+      match ent.splitOn ":" with
+      | [rs, act, m] => some (parseNats rs,
+          if m == "1" then ⟨String.ofList ((parseNats act).map Char.ofNat), true⟩ else ⟨if act == "_" then "" else act, false⟩)
+      | _ => none
+    let e : Eng := { mainTbl := norm (parseTbl mtbl), isEmacs := em == "1", viInsert := em != "1", registered := parseList regs "," }
+    let C : MLoop.Cmds := { run := fun b cmd s =>
+      if !cmd then s
+      else if b.action == "accept-line" then { s with done := true }
+      else if b.action == "self-insert" || b.action.startsWith "verif-probe-" then
+        { s with log := s.log ++ [(b.action, s.eng.keys.matched)] }
+      else s }
+    let (s, ok) := MLoop.session C 3000 ((parseList chunks ",").map parseNats) { eng := e }
+    let hex2 (n : Nat) : String := String.ofList [Nat.digitChar (n / 16 % 16), Nat.digitChar (n % 16)]
+    let hex (l : List Nat) : String := String.join ((utf8 l).map hex2)
+    let probes := (s.log.filter fun (a, _) => a != "self-insert").map fun (a, ks) => s!"{a}:{hex ks}"
+    let line := (s.log.filter fun (a, _) => a == "self-insert").flatMap fun (_, ks) => (ks.take 1).flatMap Loop.quote
+    let last := if !ok then "FUEL" else if s.done then s!"line:{hex line}" else "blocked"
+    " ".intercalate (probes ++ [last])
   | ["local", emacs, isearch, regs, tbl, chunks] =>
     let table : List (List Nat × Bind) := (parseList tbl ";").filterMap fun ent =>
       match ent.splitOn ":" with
@@ -254,7 +276,14 @@ def step (line : String) : String :=
     let lt := norm table
     " ".intercalate (localLoop e0 lt (isearch == "1") ((parseList chunks ",").map parseNats) 12 [])
   | ["accept", w, l, pos] =>
-    " ".intercalate ((Disp.acceptLine (w.toNat?.getD 80) [62, 32] (parseNats l) (pos.toNat?.getD 0)).map Disp.showTk)
+    -- the tokens of AcceptLine, and where they leave the cursor of the terminal model when run from the
+    -- cursor position of the last redisplay (prompt on row 0)
+    let wd := w.toNat?.getD 80
+    let toks := Disp.acceptLine wd [62, 32] (parseNats l) (pos.toNat?.getD 0)
+    let cc := Disp.coordsCursor wd (parseNats l) (pos.toNat?.getD 0) 2
+    let t0 : Term := { w := wd, cell := fun _ _ => 32, x := cc.1, y := cc.2, pw := false }
+    let t1 := t0.run toks
+    " ".intercalate (toks.map Disp.showTk ++ [s!"XY:{t1.x},{t1.y}"])
   | ["kill", cmd, l, cp] =>
     let s0 : Kill.St := { line := parseNats l, cur := ⟨cp.toInt?.getD 0, -1⟩ }
     let r : Core.G Kill.St := match cmd with
